@@ -287,6 +287,23 @@ func flight4Parse(
 	return Flight6, nil, nil
 }
 
+// ensureLocalKeypair makes the server's ephemeral key when the
+// ServerKeyExchange is built, not when the first ClientHello arrives: by then
+// the client has echoed the cookie (or hello verification is off), so a
+// ClientHello from a spoofed address costs the server no key generation.
+func ensureLocalKeypair(state *dtlsstate.State12) (*alert.Alert, error) {
+	if state.LocalKeypair != nil {
+		return nil, nil
+	}
+	keypair, err := elliptic.GenerateKeypair(state.NamedCurve)
+	if err != nil {
+		return &alert.Alert{Level: alert.Fatal, Description: alert.IllegalParameter}, err
+	}
+	state.LocalKeypair = keypair
+
+	return nil, nil
+}
+
 //nolint:gocognit,cyclop,maintidx
 func flight4Generate(
 	_ dtlsflight.Conn,
@@ -414,6 +431,9 @@ func flight4Generate(
 			return nil, &alert.Alert{Level: alert.Fatal, Description: alert.InsufficientSecurity}, err
 		}
 
+		if dtlsAlert, err := ensureLocalKeypair(state); err != nil { //nolint:govet
+			return nil, dtlsAlert, err
+		}
 		signature, err := dtlscrypto.GenerateKeySignature(
 			clientRandom[:],
 			serverRandom[:],
@@ -495,6 +515,9 @@ func flight4Generate(
 			IdentityHint: cfg.LocalPSKIdentityHint,
 		}
 		if state.CipherSuite.KeyExchangeAlgorithm().Has(ciphersuite.KeyExchangeAlgorithmEcdhe) {
+			if dtlsAlert, err := ensureLocalKeypair(state); err != nil {
+				return nil, dtlsAlert, err
+			}
 			srvExchange.EllipticCurveType = elliptic.CurveTypeNamedCurve
 			srvExchange.NamedCurve = state.NamedCurve
 			srvExchange.PublicKey = state.LocalKeypair.PublicKey
